@@ -202,11 +202,25 @@ func runCI(c *rig.Ctx, cs Case) verdict {
 			}
 		}
 		reals = append(reals, sr)
-		// the fresh gateway given only this version
+		// the fresh gateway given only this version. When the long-lived instance applied the version this is the
+		// public CreateClusterInfo (the direct judge); otherwise its body (buildClusterRESTConfig, NewEmptyClusterInfo,
+		// Sync) is run step by step, because a failing CreateClusterInfo returns nil and what it started could not be stopped.
 		fr := freshReal{}
 		var fci *clusters.ClusterInfo
 		var ferr error
-		_, fp := rig.Recover(func() { fci, ferr = clusters.CreateClusterInfo(o.Real(fmt.Sprint(i+1)), cheapHealthCheck, cs.Global, nil) })
+		var fp bool
+		if sr.Outcome == "ok" {
+			_, fp = rig.Recover(func() { fci, ferr = clusters.CreateClusterInfo(o.Real(fmt.Sprint(i+1)), cheapHealthCheck, cs.Global, nil) })
+		} else {
+			fobj := o.Real(fmt.Sprint(i + 1))
+			cfg, cerr := clusters.VerifC11BuildRESTConfig(fobj)
+			if cerr != nil {
+				ferr = cerr
+			} else {
+				fci = clusters.NewEmptyClusterInfo(fobj.Name, cfg, cheapHealthCheck, cs.Global, nil)
+				_, fp = rig.Recover(func() { ferr = fci.Sync(fobj) })
+			}
+		}
 		switch {
 		case fp:
 			fr.Outcome = "crash"
